@@ -170,6 +170,84 @@ def h_geometric(eng, n):
         eng.check(Implies(alone, (not cys[i].ss_bonded) and "CYX" not in cys[i].patches), "free-cys-geometric", note=f"CYS {i} has no sulfur within {LIMIT} A but is marked bridged")
 
 
+def h_pipeline_pair(eng, ff):
+    """two cysteines whose sulfurs are 2.04 A apart, through the REAL non_trivial: the names the input gives
+    them (CYS / CYX / CYM), a missing (to be rebuilt) SG and the options are symbolic selectors"""
+    from pdb2pqr import aa, main
+
+    names = [["CYS", "CYX", "CYM"][eng.choice(f"name{i}", 3)] for i in range(2)]
+    missing = eng.choice("missing_sg", 3)  # 0 none, 1 first, 2 second
+    debump, opt = eng.flag("debump"), eng.flag("opt")
+    a_lines = fixtures.peptide_lines(["ALA", "CYS", "ALA"], "A", 1, ter=False)
+    ref = fixtures.pristine_definition().map["CYS"].map
+    sg = [ref["SG"].x - 3.8, ref["SG"].y, ref["SG"].z]
+    cb = [ref["CB"].x - 3.8, ref["CB"].y, ref["CB"].z]
+    u = [sg[k] - cb[k] for k in range(3)]
+    L = sum(x * x for x in u) ** 0.5
+    u = [x / L for x in u]
+    P = [sg[k] + 1.02 * u[k] for k in range(3)]
+    # a unit vector perpendicular to u
+    t = [1.0, 0.0, 0.0] if abs(u[0]) < 0.9 else [0.0, 1.0, 0.0]
+    d = sum(t[k] * u[k] for k in range(3))
+    w = [t[k] - d * u[k] for k in range(3)]
+    Lw = sum(x * x for x in w) ** 0.5
+    w = [x / Lw for x in w]
+    lines = []
+    for ci, (chain, nm) in enumerate(zip("AB", names)):
+        for ln in a_lines:
+            x, y, z = float(ln[30:38]), float(ln[38:46]), float(ln[46:54])
+            if ci == 1:  # rotate by 180 degrees about the axis through P along w
+                v = [x - P[0], y - P[1], z - P[2]]
+                dw = sum(v[k] * w[k] for k in range(3))
+                x, y, z = (P[k] + 2 * dw * w[k] - v[k] for k in range(3))
+            num = int(ln[22:26])
+            if num == 2:
+                ln = ln[:17] + nm + ln[20:]
+                if ln[12:16].strip() == "SG" and missing == ci + 1:
+                    continue
+            lines.append(ln[:21] + chain + ln[22:30] + f"{x:8.3f}{y:8.3f}{z:8.3f}" + ln[54:])
+        lines.append("TER")
+    try:
+        bm, defn = fixtures.prepared(lines)
+        args = fixtures.Args(ff=ff, pka_method=None, debump=debump, opt=opt)
+        main.non_trivial(args, bm, None, defn, False)
+    except (ValueError, KeyError, TypeError, AttributeError, IndexError) as e:
+        eng.check(True, "loud-failure-tolerated", note=type(e).__name__)
+        eng.note(f"names={names} missing={missing}: {type(e).__name__} {str(e)[:60]}")
+        return
+    cys = [r for r in bm.residues if isinstance(r, aa.CYS)]
+    state = [f"{r.name}:{'SS' if r.ss_bonded else '--'}:{r.ffname}:{'HG' if r.has_atom('HG') else 'noHG'}" for r in cys]
+    eng.note(f"names={names} missing={missing} debump={debump} opt={opt} -> {state}")
+    from pdb2pqr import utilities
+
+    s0, s1 = cys[0].get_atom("SG"), cys[1].get_atom("SG")
+    if s0 is None or s1 is None or utilities.distance(s0.coords, s1.coords) >= LIMIT:
+        eng.check(True, "not-within-limit")
+        return
+    ok = all(bool(r.ss_bonded) and not r.has_atom("HG") and r.ffname.endswith("CYX") for r in cys) and cys[0].ss_bonded_partner is s1 and cys[1].ss_bonded_partner is s0
+    eng.check(ok, "bridged-pair-through-the-pipeline", note=f"sulfurs {utilities.distance(s0.coords, s1.coords):.2f} A apart in the final structure (input names {names}, SG rebuilt: {missing}) but the residues end as {state}")
+
+
+def h_stage_order(eng, ff, pka, ligand):
+    """disulfide detection runs on the repaired structure and before hydrogens are added (real driver, stage stubs)"""
+    from . import flow
+
+    w = flow.World(eng, "r", False, {}, [])
+    w.num_missing = eng.int("num_missing", 0, 100)
+    opts = flow.symbolic_options(eng, fixed=dict(ff=ff, pka=pka, ligand=ligand), formatting=dict(whitespace=False, keep_chain=False, include_header=False, ffout=0, pdb_output=0, apbs_input=0))
+    eng.assume(And(opts["ph"] >= 0, opts["ph"] <= 14))
+    flow.run_driver(w, opts)
+    stages = [n for n, _a, _k in w.log]
+    if "bm.update_ss_bridges" not in stages:
+        eng.check(True, "no-bridge-stage")
+        return
+    i = stages.index("bm.update_ss_bridges")
+    eng.check("bm.repair_heavy" not in stages[i:], "bridges-after-repair", note="update_ss_bridges runs before repair_heavy: a cysteine whose SG is rebuilt is never scanned")
+    eng.check("bm.num_missing_heavy" in stages[:i], "bridges-after-repair", note="update_ss_bridges runs before the repair decision")
+    eng.check("bm.add_hydrogens" in stages[i:] and "bm.add_hydrogens" not in stages[:i], "bridges-before-hydrogens", note="hydrogens are added before disulfide detection (HG would not be suppressed)")
+    eng.check(stages.count("bm.update_ss_bridges") == 1, "bridges-once")
+
+
 def obligations(tier):
     obs = []
     if tier == "quick":
@@ -186,6 +264,10 @@ def obligations(tier):
         for order in orders:
             tag = "".join(map(str, order))
             obs.append(Obligation(f"bridges-{layout}-n{n}-o{tag}", h_bridges, {"layout": layout, "n": n, "order": list(order)}, group="bridges", time_cap=2400, max_paths=100000))
+    for ff in ("amber",) if tier == "quick" else ("amber", "parse", "charmm"):
+        obs.append(Obligation(f"pipeline-pair-{ff}", h_pipeline_pair, dict(ff=ff), group="pipeline-pair", time_cap=1500))
+    for ff, pka, lig in ((0, 0, 0), (1, 1, 0)) if tier == "quick" else [(f, p, l) for f in (0, 1, 2) for p in (0, 1) for l in (0, 1)]:
+        obs.append(Obligation(f"stage-order-ff{ff}-pka{pka}-lig{lig}", h_stage_order, dict(ff=ff, pka=pka, ligand=lig), group="stage-order", time_cap=1500, max_paths=100000))
     for n in (2,):  # three sulfurs = three square roots in one query: z3 answered unknown (probed)
         obs.append(Obligation(f"geometric-n{n}", h_geometric, dict(n=n), group="geometric", time_cap=1500))
     return obs
